@@ -213,6 +213,9 @@ class Env:
 
             self.grid_kw = grid_kwargs(sc, self.nm)  # kept: the constructor's argument objects (C18 snapshots them)
             self.grid = Grid(self.ds, **self.grid_kw)
+            # registration calls that belong to the set-up of the Grid rather than to the calls under observation
+            for j, c in enumerate(sc["grid"].get("post_setup") or []):
+                self.run_call(20_000 + j, c)
 
     # -- argument materialisation
     def data(self, ref):
@@ -279,6 +282,13 @@ class Env:
             ax = call["axes"]
             axes = nm(ax) if isinstance(ax, str) else (tuple(nm(a) for a in ax) if call.get("axis_spelling") == "tuple" else [nm(a) for a in ax])
             return g.get_metric(self.data(call["da"]), axes)
+        if fn == "set_metrics":
+            key = call["key"]
+            k = nm(key) if isinstance(key, str) else tuple(nm(a) for a in key)
+            vs = call["vars"]
+            g.set_metrics(k, nm(vs) if isinstance(vs, str) else [nm(v) for v in vs], overwrite=bool(call.get("overwrite", False)))
+            return {"registry": {"/".join(sorted(self.nm.back(a, "axis") for a in fs)): [self.nm.back(str(m.name)) for m in lst]
+                                 for fs, lst in g._metrics.items()}}
         if fn == "pad":
             from xgcm.padding import pad
 
